@@ -35,7 +35,8 @@ SUB_OK = "2023-11-14T22-13-20"
 SUBS = [SUB_OK, "2023-11-14T22:13:20", "12023-11-14T22-13-20", "2023-11-14T22-13"]
 FILES = ["rf@%d.000.h5" % T, "x@%d.000.h5" % T, "md@%d.h5" % T, "tmp.rf@%d.000.h5" % T, "tmp.md@%d.h5" % T,
          "rf@%d.00.h5" % T, "rf@%d.000.hdf5" % T, "rf@.h5", "rf%d.000.h5" % T, "metadata@%d.h5" % T,
-         "rf@%d.0000.h5" % T, "md@%d.h5x" % T, "a@b@%d.000.h5" % T]
+         "rf@%d.0000.h5" % T, "md@%d.h5x" % T, "a@b@%d.000.h5" % T,
+         "rf@%d.250.h5" % T]  # a file of a sub-second cadence (time T + 250 ms)
 CHFILES = ["drf_properties.h5", "dmd_properties.h5", "metadata.h5", "tmp.drf_properties.h5", "rf@%d.000.h5" % T, "md@%d.h5" % T]
 
 
@@ -75,6 +76,10 @@ FLAGS = [f for f in itertools.product([True, False], repeat=4) if any(f)]
 # which handler and listing both document to mean UTC (the checks run with a non-UTC local time zone)
 WINDOWS = [(s, e, nv) for s in (None, -1, 0, 1) for e in (None, -1, 0, 1) if s is None or e is None or s <= e
            for nv in ((False, True) if (s is not None or e is not None) else (False,))]
+
+
+# ... and window edges around the 250 ms file, including edges that are not a whole number of milliseconds
+WINDOWS += [(s, None, False) for s in (249.5, 250, 250.5)] + [(None, e, False) for e in (249.5, 250, 250.5)]
 
 
 def _nv(win):
@@ -191,6 +196,15 @@ def judge_tuple(orc, paths, res, count, flags_list=None, windows=None):
                         res.fail("filter-disagrees-with-listing:%s:%s" % (name, "accepts" if log else "rejects"),
                                  "%s %s flags=%r window=%r: handler %r, listing %s" % (name, full, flags, win, log, acc))
                         orc.fail_cases.append({"paths": [list(p), ["chrf", SUB_OK, "zz@1.000.h5"]], "flags": list(flags), "win": list(win)})
+                    if h_ign is not None:
+                        # events that the observer synthesises (for the files of a directory that was moved as a whole) are
+                        # events like any other
+                        del log[:]
+                        h.dispatch(cls(full, is_synthetic=True))
+                        n += 1
+                        if log != exp:
+                            res.fail("synthetic-event-treated-differently:%s" % name, "%s %s (is_synthetic) flags=%r: handler %r, listing %s" % (name, full, flags, log, acc))
+                            orc.fail_cases.append({"paths": [list(p), ["chrf", SUB_OK, "zz@1.000.h5"]], "flags": list(flags), "win": list(win)})
                 for cls in (ev.DirCreatedEvent, ev.DirModifiedEvent, ev.DirDeletedEvent):
                     del log[:]
                     h.dispatch(cls(full))
@@ -215,6 +229,15 @@ def judge_tuple(orc, paths, res, count, flags_list=None, windows=None):
                     h.dispatch(ev.FileMovedEvent(src, dst))
                     n += 1
                     nt += 1
+                    if h_ign is not None:
+                        plain_log = list(log)
+                        del log[:]
+                        h.dispatch(ev.FileMovedEvent(src, dst, is_synthetic=True))
+                        if log != plain_log:
+                            res.fail("synthetic-event-treated-differently:moved", "moved %s -> %s (is_synthetic) flags=%r: %r, as an ordinary event %r" % (src, dst, flags, log, plain_log))
+                            orc.fail_cases.append({"paths": [list(ps), list(pd)], "flags": list(flags), "win": list(win)})
+                        del log[:]
+                        log.extend(plain_log)
                     if h_ign is not None and ign_log != log:
                         res.fail("ignore-regexes-change-dispatch", "moved %s -> %s flags=%r: %r with ignore_regexes for non-final names, %r without" % (src, dst, flags, ign_log, log))
                         orc.fail_cases.append({"paths": [list(ps), list(pd)], "flags": list(flags), "win": list(win)})
